@@ -35,10 +35,7 @@ end Outcome
 
 def le16 (n : Nat) : Bytes := [n % 256, n / 256 % 256]
 def le32 (n : Nat) : Bytes := [n % 256, n / 256 % 256, n / 65536 % 256, n / 16777216 % 256]
-def le64 (n : Nat) : Bytes :=
-  [n % 256, n / 256 % 256, n / 65536 % 256, n / 16777216 % 256,
-   n / 4294967296 % 256, n / 1099511627776 % 256, n / 281474976710656 % 256,
-   n / 72057594037927936 % 256]
+def le64 (n : Nat) : Bytes := le32 n ++ le32 (n / 4294967296)
 
 def be16 (n : Nat) : Bytes := [n / 256 % 256, n % 256]
 def be64 (n : Nat) : Bytes := (le64 n).reverse
